@@ -425,7 +425,7 @@ func Run(r *ev.Run) {
 		}
 	}
 	cols, trs := targets()
-	mult := r.Pick(1, 30)
+	mult := r.Pick(5, 40)
 	posPerBatch := 170 * mult // × 3 stores × 4 epochs ≈ 2 040 (quick)
 	negPerBatch := 340 * mult // ≈ 4 080 (quick)
 	readers := []struct {
